@@ -362,6 +362,15 @@ func VH14g_slow_hook() {
 	td.Pipes[0].Drop()
 	lostAt := verif.Now()
 	verif.Quiesce()
+	// ... and, as a choice, the reconnect time passes while the callback is STILL running: the redial comes due
+	// before the attempt that made the lost connection has returned
+	if verif.Choice("redial-due-during-hook", 2) == 1 {
+		for i := 0; i < 3 && verif.PendingTimers() > 0; i++ {
+			verif.FireTimer()
+		}
+		verif.Quiesce()
+		verif.Reach("redial-due-during-hook")
+	}
 	close(gate)
 	verif.Quiesce()
 	verif.Assert(dg.Done(), lab+"/dial-still-blocked")
